@@ -50,7 +50,16 @@ func c11exec(c *h.Ctx, cs *h.Case) {
 	msgTok := map[int]int{}
 	doneSeen := map[int]bool{}
 	fix.ResetRecs()
+	// gate: token id -> thread key; the constructor of that instance parks at "ctor" until `ctorret`
+	gate := map[string]string{}
+	inCtor := map[int]string{} // instance -> key of the thread inside its constructor
 	fix.Prepare = func(rec *fix.Rec) {
+		mu.Lock()
+		key, gated := gate[rec.Tni.Token().ID().String()]
+		mu.Unlock()
+		if gated {
+			ctl.Reach(key, "ctor")
+		}
 		rec.OnAccept = func(msg *onet.ProtocolMsg) {
 			if _, ok := msg.Msg.(*fix.M3); ok {
 				mu.Lock()
@@ -94,6 +103,9 @@ func c11exec(c *h.Ctx, cs *h.Case) {
 				live = append(live, k)
 			case "done":
 				done = append(done, k)
+			}
+			if _, running := inCtor[k]; running {
+				continue // the constructor has not returned yet
 			}
 			for i := 0; i < fix.ConstructedCount(tokens[k]); i++ {
 				cons = append(cons, k)
@@ -172,12 +184,38 @@ func c11exec(c *h.Ctx, cs *h.Case) {
 			}
 			_ = before
 			cs.Impl = append(cs.Impl, "pc="+pc+" "+obs())
-		case len(tk) == 4 && tk[1] == "thread":
+		case len(tk) == 4 && (tk[1] == "thread" || tk[1] == "threadc"):
 			m, _ := strconv.Atoi(tk[3])
 			k, _ := strconv.Atoi(tk[2])
 			key := "m" + strconv.Itoa(m)
-			if w := ctl.Where(key); w == "" || w == "finished" || msgTok[m] != k {
+			// a thread inside a constructor holds transmitMux: nobody else enters the region
+			if w := ctl.Where(key); w != "tm.found" || msgTok[m] != k || len(inCtor) > 0 {
 				cs.Impl = append(cs.Impl, "disabled")
+				return true
+			}
+			if tk[1] == "threadc" {
+				creates := ov.VerifInstanceState(tokOf(k)) == "none"
+				mu.Lock()
+				gate[tokOf(k).ID().String()] = key
+				mu.Unlock()
+				loc, err := ctl.Step(key)
+				mu.Lock()
+				delete(gate, tokOf(k).ID().String())
+				mu.Unlock()
+				if err != nil {
+					cs.Impl = append(cs.Impl, "hang")
+					cs.Fail("thread-stuck", err.Error())
+					return false
+				}
+				everUsed[k] = true
+				pc := "fin"
+				if loc == "ctor" {
+					pc = "ctor"
+					inCtor[k] = key
+				} else if creates {
+					cs.Fail("constructor-not-run", fmt.Sprintf("message %d for the unknown instance %d ended without running the protocol constructor", m, k))
+				}
+				cs.Impl = append(cs.Impl, "pc="+pc+" "+obs())
 				return true
 			}
 			wasDone := ov.VerifInstanceState(tokOf(k)) == "done"
@@ -201,9 +239,28 @@ func c11exec(c *h.Ctx, cs *h.Case) {
 				}
 			}
 			cs.Impl = append(cs.Impl, "pc=fin "+o)
+		case len(tk) == 3 && tk[1] == "ctorret":
+			k, _ := strconv.Atoi(tk[2])
+			key, ok := inCtor[k]
+			if !ok {
+				cs.Impl = append(cs.Impl, "disabled")
+				return true
+			}
+			delete(inCtor, k)
+			if _, err := ctl.Step(key); err != nil {
+				cs.Impl = append(cs.Impl, "hang")
+				cs.Fail("thread-stuck", err.Error())
+				return false
+			}
+			cs.Impl = append(cs.Impl, "pc=fin "+obs())
 		case len(tk) == 3 && tk[1] == "done":
 			k, _ := strconv.Atoi(tk[2])
 			tok, ok := tokens[k]
+			if _, running := inCtor[k]; running {
+				// the instance cannot declare itself done before its constructor has returned
+				cs.Impl = append(cs.Impl, "disabled")
+				return true
+			}
 			if !ok || ov.VerifInstanceState(tok) != "live" || fix.RecOf(tok) == nil {
 				cs.Impl = append(cs.Impl, "disabled")
 				return true
@@ -263,8 +320,14 @@ func c11exec(c *h.Ctx, cs *h.Case) {
 		keys = append(keys, k)
 	}
 	sort.Strings(keys)
+	for k := range inCtor {
+		tail = append(tail, fmt.Sprintf("c11 ctorret %d", k))
+	}
 	for _, key := range keys {
 		m, _ := strconv.Atoi(key[1:])
+		if ctl.Where(key) == "ctor" {
+			continue
+		}
 		tail = append(tail, fmt.Sprintf("c11 thread %d %d", msgTok[m], m))
 	}
 	var ks []int
@@ -321,6 +384,9 @@ func c11gen(c *h.Ctx, yield func(*h.Case)) {
 	yield(&h.Case{Class: "corpus-peer-request-in-grace", Ops: []string{"c11 localstart 1", "c11 peerreq", "c11 done 1", "c11 peerreq", "c11 wait", "c11 peerreq"}})
 	yield(&h.Case{Class: "corpus-reuse", Ops: []string{"c11 localstart 1", "c11 arrive 2 5", "c11 thread 2 5", "c11 done 1", "c11 arrive 2 6", "c11 thread 2 6", "c11 done 2", "c11 arrive 3 7", "c11 thread 3 7", "c11 wait", "c11 done 3"}})
 	yield(&h.Case{Class: "corpus-race", Ops: []string{"c11 localstart 1", "c11 arrive 2 5", "c11 done 1", "c11 thread 2 5", "c11 wait", "c11 arrive 2 6", "c11 thread 2 6"}})
+	// an instance finishes while another run's constructor is still running: the tree must stay
+	yield(&h.Case{Class: "corpus-done-during-constructor", Ops: []string{"c11 localstart 1", "c11 arrive 2 5", "c11 threadc 2 5", "c11 done 1", "c11 peerreq", "c11 wait", "c11 peerreq", "c11 ctorret 2", "c11 arrive 2 6", "c11 thread 2 6"}})
+	yield(&h.Case{Class: "corpus-done-during-constructor", Ops: []string{"c11 localstart 1", "c11 arrive 2 5", "c11 arrive 3 6", "c11 threadc 2 5", "c11 thread 3 6", "c11 done 2", "c11 done 1", "c11 ctorret 2", "c11 thread 3 6", "c11 done 3", "c11 wait"}})
 	for n := 0; n < c.Pick(28, 400); n++ {
 		cs := &h.Case{Class: "random"}
 		m := 0
@@ -328,6 +394,7 @@ func c11gen(c *h.Ctx, yield func(*h.Case)) {
 		known := []int{}
 		pending := map[int]int{} // message -> token, parked at tm.found
 		waits := 0
+		ctor := 0 // instance whose constructor is being held
 		maybeAbsent := true
 		for j := 0; j < 4+r.Intn(14); j++ {
 			x := r.Intn(12)
@@ -349,11 +416,26 @@ func c11gen(c *h.Ctx, yield func(*h.Case)) {
 				pending[m] = k
 				cs.Ops = append(cs.Ops, fmt.Sprintf("c11 arrive %d %d", k, m))
 			case x < 8 && len(pending) > 0:
-				for mm, k := range pending {
-					cs.Ops = append(cs.Ops, fmt.Sprintf("c11 thread %d %d", k, mm))
-					delete(pending, mm)
-					break
+				mm := -1
+				for cand := range pending {
+					if mm < 0 || cand < mm {
+						mm = cand
+					}
 				}
+				k := pending[mm]
+				if ctor == 0 && r.Intn(3) == 0 {
+					cs.Ops = append(cs.Ops, fmt.Sprintf("c11 threadc %d %d", k, mm))
+					ctor = k
+					c.Count("op=threadc")
+				} else {
+					cs.Ops = append(cs.Ops, fmt.Sprintf("c11 thread %d %d", k, mm))
+				}
+				if ctor == 0 || ctor == k {
+					delete(pending, mm)
+				}
+			case x < 9 && ctor != 0:
+				cs.Ops = append(cs.Ops, fmt.Sprintf("c11 ctorret %d", ctor))
+				ctor = 0
 			case x < 11 && len(known) > 0:
 				cs.Ops = append(cs.Ops, fmt.Sprintf("c11 done %d", known[r.Intn(len(known))]))
 			case x == 11 && r.Intn(2) == 0:
@@ -370,5 +452,6 @@ func c11gen(c *h.Ctx, yield func(*h.Case)) {
 }
 
 func init() {
-	h.RegisterProp(h.Prop{Name: "c11", Gen: c11gen, Exec: c11exec})
+	// isolated: a listed instance whose tree was released crashes the process from its reader goroutine
+	h.RegisterProp(h.Prop{Name: "c11", Gen: c11gen, Exec: c11exec, Isolate: true, Timeout: 90 * time.Second})
 }
